@@ -225,6 +225,36 @@ class Builder:
             self.symbols[f"{name}[{i}]"] = c
         return SymSeq(arr, 0, n, "str")
 
+    def text(self, name, pieces):
+        """A source text made of pieces: ("lit", "lda") -- these characters -- or ("run", name, alphabet, minlen) -- ANY number (>= minlen) of
+        characters, each from `alphabet`.  -> (SymSeq str, list of (offset term, length term) per piece)"""
+        arr = z3.Array(name, z3.IntSort(), z3.IntSort())
+        self.symbols[name] = arr
+        off = z3.IntVal(0)
+        spans = []
+        for k, pc in enumerate(pieces):
+            if pc[0] == "lit":
+                for i, c in enumerate(pc[1]):
+                    self.st.pc.append(z3.Select(arr, z3.simplify(off + i)) == ord(c))
+                ln = z3.IntVal(len(pc[1]))
+            elif pc[0] == "chars":
+                # any characters with code in [lo, hi] except the listed ones
+                _, rname, lo, hi, exclude, minlen = pc
+                ln = self.int(rname, minlen)
+                j = z3.Int(f"j!{rname}")
+                c = z3.Select(arr, j)
+                self.st.pc.append(z3.ForAll([j], z3.Implies(z3.And(off <= j, j < off + ln), z3.And(c >= lo, c <= hi, *[c != ord(x) for x in exclude]))))
+            else:
+                _, rname, alphabet, minlen = pc
+                ln = self.int(rname, minlen)
+                j = z3.Int(f"j!{rname}")
+                self.st.pc.append(z3.ForAll([j], z3.Implies(z3.And(off <= j, j < off + ln), z3.Or(*[z3.Select(arr, j) == ord(c) for c in alphabet]))))
+            spans.append((off, ln))
+            off = z3.simplify(off + ln)
+        total = self.int(name + "_len", 0)
+        self.st.pc.append(total == off)
+        return SymSeq(arr, 0, total, "str"), spans
+
     def symmap(self, name, values):
         arr = z3.Array(name, z3.IntSort(), z3.IntSort())
         self.symbols[name] = arr
